@@ -349,6 +349,21 @@ def omittedInside (t : TxIn) (vs : List Var) (ids extra : List Nat) (p : Pep) : 
     let (a, b) := appliedSpan h v
     occ.any fun (x, y) => decide (a < y) && decide (x < b)
 
+/-- NOT part of any definition — classification only: like `omittedInside`, but for the
+neighbourhood of the peptide: an omitted record ends within one codon in front of the peptide's
+first codon or starts within one codon behind its last (it creates or removes the cleavage site
+that bounds the peptide). -/
+def omittedAdjacent (t : TxIn) (vs : List Var) (ids extra : List Nat) (p : Pep) : Bool :=
+  let us := sortByStart (vs.filterMap (usable t))
+  let all := ids ++ extra
+  let h := us.filter fun v => v.ids.all all.contains
+  let seq := applyHap t.seq h
+  let occ := occurrences t seq (secAfter t.sec h) p
+  (h.filter fun v => v.ids.any extra.contains).any fun v =>
+    let (a, b) := appliedSpan h v
+    occ.any fun (x, y) =>
+      (decide (b ≤ x) && decide (x ≤ b + 3)) || (decide (y ≤ a) && decide (a ≤ y + 3))
+
 /-! ### callNovelORF and callAltTranslation (no variants) -/
 
 /-- S (C08): peptides of every ATG-initiated ORF in three frames of the transcript, minus the
